@@ -482,6 +482,10 @@ func c18BodyOpt(x *engine.X, onlyFailing bool) {
 	x.Note("async=%v variant=%s frames=%d cuts=%v closeAt=%v prior=%d", async, v.name, nfr, sc.cuts, sc.closeAt, prior)
 	x.Nontrivial()
 	before := kern.Census(c13Dir)
+	if async && !v.ok() && len(sc.cuts) == 0 && x.Deviate(2, "the failure callback starts the next handshake at once") == 1 {
+		c18RetryFromCallback(x, ioc, ws, srv, sc, before)
+		return
+	}
 	res, herr := doHandshake(x, ioc, ws, srv, sc, async)
 	conns = append(conns, res.conn)
 	if res.err != "" && res.req == nil {
@@ -639,6 +643,77 @@ func c18BodyOpt(x *engine.X, onlyFailing bool) {
 	if d := censusDiff(before, after); d != "" {
 		x.Fail("handshake/failed/fd-leak", "handshake failed (%v) and left the descriptor table changed: %s", herr, d)
 	}
+}
+
+// c18RetryFromCallback: an asynchronous handshake that fails, whose failure callback starts the next handshake on
+// the same stream at once (a reconnect loop). The second server answers correctly. Afterwards the stream is active on
+// the SECOND connection, and once the application drops it the descriptor table is what it was: the first, failed
+// connection was closed by the library, not left behind and not confused with the second one.
+func c18RetryFromCallback(x *engine.X, ioc *sonic.IO, ws *websocket.Stream, srv *hsServer, sc hsScript, before kern.CensusT) {
+	var done1, done2 atomic.Bool
+	out1, out2 := make(chan hsResult, 1), make(chan hsResult, 1)
+	go srv.serve(sc, &done1, out1)
+	url := fmt.Sprintf("ws://%s/path?q=1", kern.AddrString(srv.addr, srv.port))
+	var err1, err2 error
+	fin, second := false, false
+	ws.AsyncHandshake(url, func(err error) {
+		err1 = err
+		done1.Store(true)
+		if err == nil {
+			fin = true
+			return
+		}
+		second = true
+		go srv.serve(hsScript{variant: hsVariants()[0]}, &done2, out2)
+		ws.AsyncHandshake(url, func(err error) { err2 = err; fin = true })
+	})
+	dl := time.Now().Add(6 * settleGuard)
+	for !fin && time.Now().Before(dl) {
+		ioc.RunOneFor(20 * time.Millisecond)
+	}
+	done1.Store(true)
+	done2.Store(true)
+	res1 := <-out1
+	var res2 hsResult
+	res2.conn = -1
+	if second {
+		res2 = <-out2
+	}
+	defer func() {
+		for _, c := range []int{res1.conn, res2.conn} {
+			if c >= 0 {
+				kern.Abort(c)
+			}
+		}
+	}()
+	if !fin {
+		x.Fail("handshake/async-callback-lost", "a failing AsyncHandshake whose callback starts the next one: no final callback within %v", 6*settleGuard)
+	}
+	if err1 == nil {
+		x.Fail("handshake/non-conforming-response-accepted", "response %q must not upgrade, the asynchronous handshake reported success", sc.variant.name)
+	}
+	if res2.err != "" && res2.req == nil {
+		x.Inconclusive("second server: " + res2.err)
+	}
+	if err2 != nil || ws.State() != websocket.StateActive {
+		x.Fail("handshake/retry-from-callback/second-handshake", "the handshake started from the failure callback against a conforming server: err=%v State()=%s", err2, ws.State())
+	}
+	// the stream must be talking to the second server: what it writes arrives there
+	if err := ws.Write([]byte("hello"), websocket.TypeText); err != nil {
+		x.Fail("handshake/retry-from-callback/write", "first write after the retried handshake: %v", err)
+	}
+	if !kern.AwaitReadReady(res2.conn, settleGuard) {
+		x.Fail("handshake/retry-from-callback/wrong-connection", "the message written after the retried handshake did not reach the second server")
+	}
+	ws.CloseNextLayer()
+	kern.Abort(res1.conn)
+	kern.Abort(res2.conn)
+	res1.conn, res2.conn = -1, -1
+	after := kern.Census(c13Dir)
+	if d := censusDiff(before, after); d != "" {
+		x.Fail("handshake/failed/fd-leak", "a failed asynchronous handshake whose callback started the next one, which succeeded and was then dropped: the descriptor table changed: %s", d)
+	}
+	x.Outcome("async/retry-from-callback")
 }
 
 func c18DFS(tier string) *engine.DFS {
